@@ -151,9 +151,14 @@ static void dump_ops_stderr()
 // than the one this run checks (--prop) is not reported: the case is abandoned
 // (counted), so a defect is attributed to the property it breaks.
 struct Abandon { const char *clause; };
+// C16 (allocation failure never corrupts a container): once a fault has been
+// delivered in a case, the container's ordinary model clauses count as C16's
+static std::vector<std::string> g_also_ours;
 static bool clause_is_ours(const char *clause)
 {
     if (clause[0] != 'C' || g_prop.empty()) return true;
+    for (auto &p : g_also_ours)
+        if (strncmp(clause, p.c_str(), p.size()) == 0 && clause[p.size()] == '.') return true;
     return strncmp(clause, g_prop.c_str(), g_prop.size()) == 0 && clause[g_prop.size()] == '.';
 }
 #define CHECK(cond, clause, ...) do { if (!(cond)) { \
@@ -393,6 +398,7 @@ static void case_reset()
     g_limit_hits = 0;
     g_cur_op = "";
     g_deferred_abandon = nullptr;
+    g_also_ours.clear();
     events_clear();
     if (!g_live->empty()) lib_release_all();
 }
